@@ -51,6 +51,9 @@ class SimRLock:
 
     def release(self):
         me = CUR[0]
+        sched = SCHED[0]
+        if sched is not None and sched.abort:
+            return  # the run is being torn down (deadlock / step cap): unwinding threads must not fail here
         if self.owner != me or self.count <= 0:
             raise RuntimeError("cannot release un-acquired lock")
         self.count -= 1
